@@ -1,7 +1,7 @@
 (** C16 - Notification hooks fire exactly once and in order around each link
     change.  Only statements; proofs are [exact <lemma>]. *)
 Require Import AT.Model.Base AT.Model.Heap AT.Model.Mutate AT.Spec.MutSpec.
-Require AT.Proofs.MutParent AT.Proofs.MutHistory AT.Proofs.MutDelRun AT.Proofs.MutSetRun AT.Proofs.MutInv AT.Proofs.ReentryProofs AT.Model.Reentry.
+Require AT.Proofs.MutParent AT.Proofs.MutHistory AT.Proofs.MutDelRun AT.Proofs.MutSetRun AT.Proofs.MutInv AT.Proofs.ReentryProofs AT.Proofs.MutReplay AT.Model.Reentry.
 Import AT.Proofs.MutParent.
 
 (** a parent change that actually happens logs exactly
@@ -101,6 +101,18 @@ Proof.
   rewrite (MutSetRun.set_children_run typed asrt fu n xs s I Hn ND B). reflexivity.
 Qed.
 Print Assumptions C16_children_log.
+
+(** every parent change that actually happens is reported by the hooks: for
+    every call (the three assignments and the constructors), any arguments, any
+    hook-fault oracle, both assertion settings and any re-entrancy fuel -
+    refused, aborted and rolled-back calls included - the final link state is
+    the initial one changed exactly as the logged _post_detach / _post_attach
+    invocations say *)
+Theorem C16_log_explains_state : forall typed asrt faults fuel o h,
+  let s' := snd (run_op typed asrt faults fuel o (start h)) in
+  heap_of s' = AT.Proofs.MutReplay.replay (AT.Proofs.MutReplay.initial_of o h) (log s').
+Proof. exact AT.Proofs.MutReplay.log_explains_state. Qed.
+Print Assumptions C16_log_explains_state.
 
 (** hooks that are not mere observers: the hooks of the moving node may detach
     other nodes while the setter runs.  As long as they never detach the moving
